@@ -37,8 +37,8 @@ REGIONS = {
         "sum(shape, axis) with an axis that is not the last one (incl. axis = -ndim): the result keeps the last "
         "axis divided by 8 (per-byte counts) instead of NumPy's shape",
     'resize-view':
-        "resize on a slice view: works and exposes the parent's bits if the byte count is unchanged, otherwise "
-        "raises after having advanced _stop_index",
+        "resize on a slice view (NumPy refuses): the view is detached (its bytes are copied) and the parent's bits "
+        "of its last byte become the new elements instead of False",
     'resize-dirty-padding':
         "resize of an array built on a user data_buffer whose padding bits are set: they become elements",
     'negative-size':
